@@ -849,12 +849,16 @@ def limits_wiring(prog, chk):
             f'<config {k}="..."> assigns {got} (expected [{f}])',
         )
     # the value assigned is the parsed attribute itself: no clamping / min / max / arithmetic on a limit the author sets
-    cb = prog.body(ce)
+    cb0 = prog.body(ce)
     for k, f in want.items():
-        asg = R.field_assigns(cb, ("." + f,))
-        good = bool(asg)
-        why = "no assignment found"
-        for (bb, i, st) in asg:
+        # (the assignment may sit in a closure of the function - `attrs.iter().try_for_each(|(k, v)| set(.., k, v))`)
+        found = [(bd, x) for bd in [cb0] + list(prog.closures_of(cb0)) for x in R.field_assigns(bd, ("." + f,))]
+        if not found:
+            chk.undecided("A15.config-wiring", f"ConfigElement:{k}:direct", cb0.where(), f"no assignment to TransformConfig::{f} is found in ConfigElement::generate_events or its closures: where <config {k}=..> is stored is not read here")
+            continue
+        good = True
+        why = ""
+        for (cb, (bb, i, st)) in found:
             rv = st["rv"]
             o = R.origin(cb, rv.get("op"), carriers={}) if rv["k"] == "use" else ("rv", rv)
             # through `?`: the Continue payload of branch(parse(..))
@@ -867,7 +871,7 @@ def limits_wiring(prog, chk):
             if not (src is not None and src.path.split("::")[-1] in ("parse", "from_str")):
                 good = False
                 why = f"assigned from {src.path if src is not None else o[0]}"
-        chk.ob(good, "A15.config-wiring", f"ConfigElement:{k}:direct", cb.where(), f"TransformConfig::{f} is set to the parsed attribute value itself", f"<config {k}=..> does not store the parsed value itself ({why}): a document within the limit it configures can be rejected (or one beyond it accepted)")
+        chk.ob(good, "A15.config-wiring", f"ConfigElement:{k}:direct", cb0.where(), f"TransformConfig::{f} is set to the parsed attribute value itself", f"<config {k}=..> does not store the parsed value itself ({why}): a document within the limit it configures can be rejected (or one beyond it accepted)")
     # set_config stores the whole config
     sc = prog.body("svgdx::context::TransformerContext::set_config")
     stores = [s for (b, i, s) in R.field_assigns(sc, (".config",))]
